@@ -20,6 +20,16 @@ SEEDS = {
     "C15": ["C15"], "C15-2": ["C15"], "C16": ["C16"], "C16-2": ["C16"], "C17": ["C17", "C11"],
     "C17-2": ["C17", "C11"], "C18": ["C18"], "C18-2": ["C18"], "C19": ["C19"], "C19-2": ["C19"],
     "C20": ["C20"], "C20-2": ["C20"],
+    # second round
+    "C01-r2": ["C01", "C10", "C09"], "C02-r2": ["C02", "C08"], "C03-r2": ["C03", "C04"],
+    "C04-r2": ["C04", "C11"], "C04-r2b": ["C04"], "C05-r2": ["C05", "C10", "C11"],
+    "C07-r2": ["C07", "C19"], "C07-r2b": ["C07", "C20"], "C08-r2": ["C08", "C16", "C15"],
+    "C09-r2": ["C09", "C07", "C01"], "C09-r2b": ["C09", "C10"], "C10-r2": ["C10"], "C10-r2b": ["C10"],
+    "C11-r2": ["C11", "C03"], "C11-r2b": ["C11", "C12"], "C12-r2": ["C12"], "C12-r2b": ["C12"],
+    "C13-r2": ["C13"], "C13-r2b": ["C13"], "C15-r2": ["C15", "C16"], "C16-r2": ["C16", "C15"],
+    "C17-r2": ["C17", "C11"], "C17-r2b": ["C17", "C04"], "C18-r2": ["C18", "C12", "C13"],
+    "C18-r2b": ["C18", "C20", "C10"], "C19-r2": ["C19"], "C20-r2": ["C20"], "C20-r2b": ["C20"],
+    "C14-r2": ["C14", "C01"], "C06-r2": ["C06", "C01"],
 }
 
 
@@ -85,6 +95,7 @@ def main():
         json.dump({
             "seed": seed,
             "property": seed[:3],
+            "round": 2 if "-r2" in seed else 1,
             "summary": meta.get("summary", ""),
             "needs_to_manifest": meta.get("needs", ""),
             "files": meta.get("files", []),
